@@ -104,6 +104,7 @@ def run_C01(tier, rnd, st, res):
     cases += list(gen_multipart_boundaries(rnd, 150 if tier == 'quick' else 2000))
     cases += list(gen_requested_version_gap(rnd, 30 if tier == 'quick' else 300))
     cases += list(gen_merge_histories(rnd, 25 if tier == 'quick' else 250))
+    cases += list(gen_encoding_histories(rnd))
     cases += list(gen_eci_boundaries(rnd, range(1, 5) if tier == 'quick' else range(1, 41)))
     if tier != 'quick':
         cases += [Case(bytes([a, b]), {}, 'two-bytes') for a in range(0, 256) for b in range(0, 256, 1)]
@@ -112,6 +113,41 @@ def run_C01(tier, rnd, st, res):
     cases = sweep(cases, st, res, ['c01'], want_c06=False)
     finish(res, cases, 'all (version, level, mask) triples + random make() calls (text/bytes/int/multi-part, encodings, eci, micro, boost) + '
            'capacity boundaries + two-byte contents; non-trivial = symbol returned and decoded; distinct by (version, level, mask, segments, end)')
+
+
+def sequence_block(tier, rnd, res, field, known_map=None):
+    """every symbol of a Structured Append sequence is a symbol: `make_sequence(content, symbol_count=n)` with chunk lengths at the
+    capacity boundaries (n chunks of k characters where k fills version v exactly, plus r < n extra characters: the longer
+    chunks need the next version), and with a requested version"""
+    lines, info = [], []
+    for v in ([1, 2, 3, 5, 9, 10] if tier == 'quick' else range(1, 28)):
+        for e in (0, 1, 2, 3):
+            for mode in (1, 2, 4):
+                k = max_chars(v, e, mode, 20)       # 20 bits Structured Append header
+                if k < 1:
+                    continue
+                n = rnd.randint(2, 5)
+                for total in {n * k, n * k + rnd.randint(1, n - 1), n * k - rnd.randint(1, n - 1), n * k + n}:
+                    content = content_for(rnd, mode, total)
+                    kw = dict(symbol_count=n, error=LEVEL_NAME[e], boost_error=False, mask=rnd.randrange(8))
+                    try:
+                        seq = segno.make_sequence(content, **kw)
+                    except ValueError:
+                        continue
+                    res.evaluations += 1
+                    for q in seq:
+                        lines.append(f'sym id={len(lines)} m={matrix_str(q.matrix)} reqmask={kw["mask"]}')
+                        info.append((content, kw))
+    for o, (content, kw) in zip(run_lines_parallel(JUDGE, lines), info):
+        kv = parse_kv(o)
+        verdict = kv.get(field, 'missing')
+        res.nontrivial.add(('sequence', kv.get('v'), kv.get('lvl'), kv.get('segs'), kv.get('end')))
+        if verdict not in ('ok', '-'):
+            kid = known_map(field, verdict, None) if known_map else None
+            res.violations.append(dict(property_field=field, verdict=verdict, call=f'segno.make_sequence({content!r}, **{kw!r})',
+                                       replay=dict(content=content if not isinstance(content, bytes) else {'bytes': content.hex()}, kw=kw, api='make_sequence'),
+                                       judge={k2: kv[k2] for k2 in kv if k2 not in ('cw', 'bytes')}, known_id=kid))
+    res.count('sequence-block:symbols', len(lines))
 
 
 def run_C13(tier, rnd, st, res):
@@ -137,6 +173,7 @@ def run_C13(tier, rnd, st, res):
                         cases.append(Case(content_for(rnd, mode, n), dict(kw, mode=MODE_NAME[mode]), 'other-modes'))
     cases += list(gen_random(rnd, 300 if tier == 'quick' else 3000))
     cases = sweep(cases, st, res, ['c13'], want_c06=False, known_map=known_c13)
+    sequence_block(tier, rnd, res, 'c13', known_c13)
     finish(res, cases, 'per version/level the 14 shortest and 13 longest numeric contents (all residues mod 8, all distances to capacity) + '
            'other modes at 1, 2, max-1, max characters + random calls; distinct by (version, level, mask, segments, end)')
 
@@ -309,7 +346,9 @@ def run_C06(tier, rnd, st, res):
         if kv.get('c06') != 'ok':
             res.violations.append(dict(property_field='c06', verdict=kv.get('c06'), call=f'segno.make_sequence({content!r}, **{kw!r})',
                                        replay=dict(content=content, kw=kw, api='make_sequence'), judge={k2: kv[k2] for k2 in kv if k2 not in ('cw', 'bytes')}, known_id=None))
-    finish(res, cases, 'all requested masks on several sizes (also through make_sequence); automatic mask on small symbols, every version, and contents rich in 1:1:3:1:1 '
+    import p_args
+    p_args.run_cli_honoured(tier, rnd, st, res, field='c06')
+    finish(res, cases, 'all requested masks on several sizes (also through make_sequence and the command line tool); automatic mask on small symbols, every version, and contents rich in 1:1:3:1:1 '
            'patterns; every candidate re-scored by the ISO spec; distinct by (version, level, mask, segments, end)')
 
 
@@ -361,6 +400,7 @@ def run_C07(tier, rnd, st, res):
                     if micro is not None:
                         kw['micro'] = micro
                     cases.append(Case(content_for(rnd, m, n), kw, 'mode-level-micro'))
+    cases += list(gen_encoding_histories(rnd))
     for t in TEXTS:
         for m in (None, 'byte', 'kanji', 'hanzi', 'alphanumeric'):
             cases.append(Case(t, dict(mode=m) if m else {}, 'texts'))
